@@ -197,16 +197,23 @@ theorem write_inv13 (c : WCfg) (scale : Int → Int) (s : SW) (r : WRec) (h : In
     rw [hid] at this
     exact this
 
+theorem failed_inv13 (c : WCfg) (scale : Int → Int) (s : SW) (r : WRec) (h : Inv s) (h13 : Inv13 c s) : Inv13 c (writeFailed c scale s r).1 := by
+  rw [writeFailed_eq]
+  cases fitClose c scale s r.decl with
+  | none => exact h13
+  | some cl => exact ready_inv13 c s cl r.infoBytes h h13
+
 theorem step_inv13 (c : WCfg) (scale : Int → Int) (s : SW) (op : WOp) (h : Inv s) (h13 : Inv13 c s) : Inv13 c (step c scale s op).1 := by
   cases op with
   | write r => exact write_inv13 c scale s r h h13
   | rotate => exact close_inv13 c s h h13
-  | failed r =>
-    show Inv13 c (writeFailed c scale s r).1
-    rw [writeFailed_eq]
-    cases fitClose c scale s r.decl with
-    | none => exact h13
-    | some cl => exact ready_inv13 c s cl r.infoBytes h h13
+  | failed r => exact failed_inv13 c scale s r h h13
+  | seg r n =>
+    show Inv13 c (writeSeg c scale s r n).1
+    rcases writeSeg_state c scale s r n with e | e | e <;> rw [e]
+    · exact write_inv13 c scale s r h h13
+    · exact failed_inv13 c scale s r h h13
+    · exact write_inv13 c scale _ n (write_inv c scale s r h) (write_inv13 c scale s r h h13)
 
 theorem run_inv13 (c : WCfg) (scale : Int → Int) (ops : List WOp) : Inv13 c (run c scale SW.init ops).1 := by
   suffices ∀ s, C04.Inv s → Inv13 c s → Inv13 c (run c scale s ops).1 from this _ inv_init (inv13_init c)
